@@ -14,7 +14,7 @@ COMPONENTS = {"real": ["mofun.find_pattern_in_structure and everything below it 
               "oracle_only": ["mofsim.geom (Kabsch classifier, lattice arithmetic)"]}
 ASSUMPTIONS = ["a match is accepted by the oracle if it fits per coordinate within atol + 1e-5*|x| (the norm of numpy.allclose); "
                "anything looser is flagged", "the exactly parallel axis draw (measure zero) is excluded from the random seam's scripts"]
-NRUNS = {"quick": 1600, "thorough": 40000}
+NRUNS = {"quick": 4000, "thorough": 60000}
 
 
 def generate(rng, tier):
